@@ -205,6 +205,12 @@ class HierarchicalCache:
         return node
 
     def __insert_node(self, node: Node, path: str):
+        # evict the previous owners of the path and of the id *before* resolving the parent: the previous
+        # owner of the id may be an ancestor of the target, and deleting it afterwards would detach the parent
+        self.delete(path=path)
+        if node.oid:
+            self.delete(oid=node.oid)
+
         parent_path, name = self._split(path)
         parent_node = self._get_node(path=parent_path)
         if parent_node is None or parent_node.type == FILE:
@@ -214,10 +220,6 @@ class HierarchicalCache:
         # note: the type of parent is now ProxyType, not Node, because of the weakref.proxy()
         assert parent_node is not node
         node.wr_parent = weakref.ref(parent_node)
-
-        self.delete(path=path)
-        if node.oid:
-            self.delete(oid=node.oid)
 
         parent_node.add_child(node)
 
@@ -425,12 +427,14 @@ class HierarchicalCache:
         assert oid is not None
         if node.oid == oid:
             return
+        path = node.full_path()
         self.delete(oid=oid)  # we know anything at that oid must be a different node
-        if node.oid is None:
+        if node.oid is None and node.full_path() is not None:
             node.oid = oid
             self._oid_to_node[oid] = node
         else:
-            self.__make_node(node.type, node.full_path(), oid)
+            # the node has an id already, or it went away with the previous owner of `oid` (an ancestor)
+            self.__make_node(node.type, path, oid)
 
 
     def get_oid(self, path):
